@@ -2,7 +2,9 @@ use super::*;
 
 impl Superset for syn::Path {
     fn is_superset<'a>(&'a self, other: &'a Self) -> Option<Substitutions<'a>> {
-        if self.segments.len() != other.segments.len() {
+        if self.segments.len() != other.segments.len()
+            || self.leading_colon.is_some() != other.leading_colon.is_some()
+        {
             return None;
         }
 
